@@ -278,7 +278,7 @@ def relabel_string_literal_findings(case, queries: str, violations: List[Violati
     if "frag.inline.on_interface" in dirty and has_inline_fragment_on_interface(case, queries):
         # D18: inline fragment on an interface inside an abstract selection
         for v in violations:
-            if v.prop == "C01" and v.clause in ("key-exposed", "round-trip", "accepted"):
+            if v.prop == "C01" and v.clause in ("key-exposed", "round-trip"):  # fields dropped - never a rejected response: that is a different failure
                 v.mech = "inline-fragment-on-interface-drops-fields"
             elif v.prop == "C04" and v.clause == "generation-typed-refusal-on-valid-input" and "ParsingError" in v.mech and "not found in type" in v.detail:
                 v.mech = "inline-fragment-on-interface-parsing-error"
